@@ -30,7 +30,7 @@
 (* lookup the code does "by id" goes through reg[key] at the moment it      *)
 (* executes.                                                                *)
 (*                                                                         *)
-(* FixD5 / FixD6 = FALSE model the code as it is (pinned tree):             *)
+(* FixD5 / FixInit / FixDetach / FixUpdater = FALSE model the pinned tree:  *)
 (*   D5  handleTriggerComplete/Error test `removed` outside writeMu and     *)
 (*       complete()/error() do not re-check it;                             *)
 (*   D6  markTriggerInitialized / doneTriggerFromUpdater / handleTrigger*   *)
@@ -47,7 +47,10 @@ CONSTANTS NS,         \* subscriber slots (= max trigger instances = max keys)
           MaxHB,      \* Heartbeat commands
           UseD,       \* second source goroutine present
           StartModes, \* subset of {"ok","fail","ctx"} a Start call may be scripted with
-          FixD5, FixD6,
+          FixD5,      \* complete()/error() re-check removed under writeMu
+          FixInit,    \* markTriggerInitialized: own trigger only, flag + TriggerCountInc set under r.mu
+          FixDetach,  \* doneTriggerFromUpdater: detaches the caller's own trigger only
+          FixUpdater, \* handleTrigger*: the updater acts on its own trigger (no lookup by id)
           CfgOK(_)    \* restriction of the configurations explored (TRUE = all)
 
 Subs   == 1..NS
@@ -303,6 +306,9 @@ SCmdDone(a) == LET i == Inst0(a) IN
 
 \* every updater method: lock upd.mu, `if s.done || s.ctx.Err() != nil { return }`
 Skip(i) == g.udone[i] \/ g.tctx[i]
+\* the trigger instance the updater of instance i acts on: its own (repaired), or whatever is registered under its id
+\* (an instance that left the registry has no subscribers: isubs[i] = {})
+Target(i) == IF FixUpdater THEN i ELSE g.reg[Key(i)]
 
 \* the method returns: unlock upd.mu (the upd.leave hook is deferred after the deferred Unlock, i.e. runs inside the lock)
 SRet(a) == LET i == Inst0(a) IN
@@ -313,14 +319,14 @@ SRet(a) == LET i == Inst0(a) IN
 \* Update -> handleTriggerUpdate: getTrigger (by id), filterSubscriptions [trig.mu], wg.Go per subscriber
 UpCall(a) == LET i == Inst0(a)  k == Key(i)  j == g.reg[k]  e == ac[a].e IN
   /\ ac[a].pc = "up.call" /\ Free(g.updMu[i])
-  /\ IF Skip(i) \/ j = 0 \/ (FixD6 /\ j # i)
+  /\ IF Skip(i) \/ (~FixUpdater /\ j = 0)
      THEN Do(a, [ac[a] EXCEPT !.pc = ac[a].nx], g, o, "upd.leave", Key(i), 0, 0)
-     ELSE LET t == {s \in g.isubs[j] : Pass(s, e)} IN
+     ELSE LET t == {s \in g.isubs[Target(i)] : Pass(s, e)} IN
           DoAc([x \in Actors |-> IF x = a THEN [ac[a] EXCEPT !.pc = "up.wait", !.fan = t]
                                  ELSE IF x[1] = "u" /\ x[2] \in t /\ x[3] = e THEN [Local0 EXCEPT !.pc = "u.spawned", !.e = e]
                                  ELSE ac[x]],
                [g EXCEPT !.updMu[i] = a],
-               Stale([o EXCEPT !.emitted[k] = Append(@, e)], "update", i, j),
+               Stale([o EXCEPT !.emitted[k] = Append(@, e)], "update", i, Target(i)),
                a, "trig.fanout", k, Cardinality(t), 0)
 
 \* wg.Wait() returned
@@ -343,9 +349,9 @@ CeNext(a, todo, gg, oo, kind) == LET i == Inst0(a)  live == {s \in todo : ~gg.re
 
 CeCall(a, kind) == LET i == Inst0(a)  k == Key(i)  j == g.reg[k] IN
   /\ ac[a].pc = kind \o ".call" /\ Free(g.updMu[i])
-  /\ IF Skip(i) \/ j = 0 \/ (FixD6 /\ j # i)
+  /\ IF Skip(i) \/ (~FixUpdater /\ j = 0)
      THEN Do(a, [ac[a] EXCEPT !.pc = ac[a].nx], g, o, "upd.leave", Key(i), 0, 0)
-     ELSE CeNext(a, g.isubs[j], g, Stale(o, IF kind = "co" THEN "complete" ELSE "error", i, j), kind)
+     ELSE CeNext(a, g.isubs[Target(i)], g, Stale(o, IF kind = "co" THEN "complete" ELSE "error", i, Target(i)), kind)
 
 \* complete() / error(): writer.Complete() / writer.Error() [writeMu]
 CeChk(a, kind) == LET s == ac[a].cur IN
@@ -368,9 +374,9 @@ HbNext(a, todo, gg, oo) == LET i == Inst0(a) IN
 
 HbCall(a) == LET i == Inst0(a)  k == Key(i)  j == g.reg[k] IN
   /\ ac[a].pc = "hb.call" /\ Free(g.updMu[i])
-  /\ IF Skip(i) \/ j = 0 \/ (FixD6 /\ j # i)
+  /\ IF Skip(i) \/ (~FixUpdater /\ j = 0)
      THEN Do(a, [ac[a] EXCEPT !.pc = ac[a].nx], g, o, "upd.leave", Key(i), 0, 0)
-     ELSE HbNext(a, {s \in g.isubs[j] : ~g.removed[s] /\ ~g.lastw[s]}, g, Stale(o, "heartbeat", i, j))
+     ELSE HbNext(a, {s \in g.isubs[Target(i)] : ~g.removed[s] /\ ~g.lastw[s]}, g, Stale(o, "heartbeat", i, Target(i)))
 
 \* sendHeartbeat [writeMu, re-checks removed]; a failing Heartbeat() unsubscribes
 HbChk(a) == LET s == ac[a].cur IN
@@ -397,7 +403,7 @@ DnCall(a) == LET i == Inst0(a) IN
 \* doneTriggerFromUpdater(id) [r.mu]: detach BY ID, then closeSubs, cancel   (source Done and failed start)
 DtBegin(a) == LET i == Inst0(a)  k == Key(i)  j == g.reg[k] IN
   /\ ac[a].pc = "dt.begin" /\ Free(g.resMu)
-  /\ IF FixD6 /\ j # i
+  /\ IF FixDetach /\ j # i
      THEN Do(a, [ac[a] EXCEPT !.pc = ac[a].ret, !.cq = {}, !.kq = {}], g, o, "trig.detach", k, 0, 0)
      ELSE LET r == Detach(g, o, k) IN
           Do(a, [ac[a] EXCEPT !.pc = TdPc(r.cq, r.kq, ac[a].ret), !.cq = r.cq, !.kq = r.kq],
@@ -452,15 +458,14 @@ GStart(a) == LET i == Inst0(a)
 \* markTriggerInitialized(id): getTrigger [r.mu] ... then (outside the lock) initialized=true, TriggerCountInc
 GOk(a) == LET i == Inst0(a)  k == Key(i)  j == g.reg[k] IN
   /\ ac[a].pc = "g.ok" /\ Free(g.resMu)
-  /\ IF j = 0 \/ (FixD6 /\ j # i)
+  /\ IF j = 0 \/ (FixInit /\ j # i)
      THEN Do(a, [ac[a] EXCEPT !.pc = "g.fin"], g, o, "trig.init", k, 0, 0)
-     ELSE IF FixD6
-     THEN Do(a, [ac[a] EXCEPT !.pc = "g.fin"], [g EXCEPT !.init[j] = TRUE], [o EXCEPT !.trigInc = @ + 1], "trig.init", k, 1, 0)
-     ELSE Do(a, [ac[a] EXCEPT !.pc = "g.found", !.cur = j], g, o, "trig.init.found", k, 0, 0)
+     ELSE \* repaired: the rest of the function runs inside r.mu (the trig.init.found hook then sits inside the lock)
+          Do(a, [ac[a] EXCEPT !.pc = "g.found", !.cur = j], [g EXCEPT !.resMu = IF FixInit THEN a ELSE @], o, "trig.init.found", k, 0, 0)
 
 GInit(a) == LET i == Inst0(a)  k == Key(i)  j == ac[a].cur IN
   /\ ac[a].pc = "g.found"
-  /\ Do(a, [ac[a] EXCEPT !.pc = "g.fin"], [g EXCEPT !.init[j] = TRUE],
+  /\ Do(a, [ac[a] EXCEPT !.pc = "g.fin"], [g EXCEPT !.init[j] = TRUE, !.resMu = IF FixInit THEN NoActor ELSE @],
         [Stale(o, "init", i, j) EXCEPT !.trigInc = @ + 1, !.lateInit = @ \/ g.reg[k] # j], "trig.init", k, 1, 0)
 
 \* failed start: writeError to the subscribers of the CAPTURED trigger, then doneTriggerFromUpdater(id)
